@@ -177,10 +177,20 @@ def _replay(beh, gname, workdir, from_file, pending):
     geo, steps = beh["geo"], beh["steps"]
     F, T = geo["F"], geo["T"]
     fr = make_frame(geo, gname, beh["prior"], workdir, from_file)
+    # a third of the frames have been through what a cadence-wide injection does to a member that is not the first: the
+    # time axis moved in place, the derived axes read meanwhile, the axis moved back.  t_i are the frame's own times.
+    if (len(steps) + F + T + len(str(beh["prior"]))) % 3 == 0:
+        shift = 7 * fr.dt * fr.tchans
+        keep = np.array(fr.ts, copy=True)
+        fr.ts += shift
+        _ = fr.ts_ext, fr.t_stop, fr.obs_length
+        fr.ts -= shift
+        fr.ts[:] = keep
     data0 = fr.data.copy()
     tol = tolerance(gname, F)
     total = np.zeros((T, F))
     first_ok = None
+    held = []          # (step, the very array object returned, a copy of it): results the caller still holds
     for k, st in enumerate(steps):
         c = st["cfg"]
         comps = components(c, geo, gname, persistent=True)
@@ -220,6 +230,11 @@ def _replay(beh, gname, workdir, from_file, pending):
         if fr.data[:, outside].tobytes() != before[:, outside].tobytes() or np.any(ret[:, outside] != 0):
             return Div("C06", "outside_range_touched", "bit-for-bit untouched outside [%d, %d)" % (lo, hi), "modified", k)
         total += ret
+        # C06: arrays returned by earlier injections are the caller's: a later injection must not change them
+        for k0, r0, c0 in held:
+            if not np.array_equal(r0, c0):
+                return Div("C06", "earlier_returned_changed", "array returned by injection %d unchanged" % k0, "modified by injection %d" % k, k)
+        held.append((k, ret, np.array(ret, copy=True)))
         for name, x, x0 in arrays:
             if not np.array_equal(x, x0):
                 return Div("C06", "caller_array_mutated." + name, "unchanged", "modified in place", k)
